@@ -41,27 +41,42 @@ Proof.
     congruence.
 Qed.
 
-Lemma in_file_events f runs f' t r : In (f', t, r) (file_events f runs) <-> f' = f /\ exists run, In run runs /\ r = detect t run.
+Lemma in_file_events ord f runs f' t r :
+  In (f', t, r) (file_events ord f runs) <-> f' = f /\ In t ord /\ exists run, In run runs /\ r = detect t run.
 Proof.
-  unfold file_events, detector_order. cbn [flat_map]. rewrite !in_app_iff. cbn [In]. rewrite !in_map_iff. split.
-  - intros [[run [E Hin]]|[[run [E Hin]]|[]]]; inversion E; subst; split; eauto.
-  - intros [-> [run [Hin ->]]]. destruct t; [right; left|left]; exists run; auto.
+  unfold file_events. rewrite in_flat_map. split.
+  - intros [t0 [Ht Hin]]. apply in_map_iff in Hin. destruct Hin as [run [E Hr]]. inversion E; subst. eauto.
+  - intros [-> [Ht [run [Hr ->]]]]. exists t. split; [exact Ht|]. apply in_map_iff. exists run. auto.
 Qed.
 
-(** Attribution is exact: when detection succeeds, a file is attributed to a tool iff one of ITS runs is recognised by
-    that tool's detector — runs a detector cannot inspect, and other tools' runs, in any position, change nothing. *)
-Theorem detect_tools_exact files m :
-  detect_tools files = TOk m ->
+(** Attribution is exact, whatever the order in which the detectors are iterated (as long as each is iterated): when
+    detection succeeds, a file is attributed to a tool iff one of ITS runs is recognised by that tool's detector — runs a
+    detector cannot inspect, and other tools' runs, in any position, change nothing. *)
+Theorem detect_tools_ord_exact ord files m :
+  (forall t, In t ord) ->
+  detect_tools_ord ord files = TOk m ->
   NoDup (map fst m) /\
   forall t f, In (t, f) m <-> exists runs, In (f, Some runs) files /\ exists run, In run runs /\ detect t run = DYes.
 Proof.
-  unfold detect_tools. destruct (forallb _ files) eqn:Hall; [|discriminate]. intros H. split.
+  intros Hord. unfold detect_tools_ord. destruct (forallb _ files) eqn:Hall; [|discriminate]. intros H. split.
   - eapply run_events_nodup; [|exact H]. constructor.
   - intros t f. rewrite (run_events_char _ _ _ H t f). cbn [In]. split.
     + intros [[]|Hin]. apply in_flat_map in Hin. destruct Hin as [[f1 r1] [Hf Hin]]. cbn [fst snd] in Hin.
       destruct r1 as [runs|].
-      * apply in_file_events in Hin. destruct Hin as [-> [run [Hr Hd]]]. exists runs. split; [exact Hf|]. exists run. split; [exact Hr|]. now symmetry.
-      * destruct Hin.
+      * apply in_file_events in Hin. destruct Hin as [-> [_ [run [Hr Hd]]]]. exists runs. split; [exact Hf|]. exists run. split; [exact Hr|]. now symmetry.
+      * apply in_file_events in Hin. destruct Hin as [_ [_ [run [[] _]]]].
     + intros [runs [Hf [run [Hr Hd]]]]. right. apply in_flat_map. exists (f, Some runs). split; [exact Hf|]. cbn [fst snd].
-      apply in_file_events. split; [reflexivity|]. exists run. split; [exact Hr|]. now symmetry.
+      apply in_file_events. split; [reflexivity|]. split; [apply Hord|]. exists run. split; [exact Hr|]. now symmetry.
 Qed.
+
+Theorem detect_tools_exact files m :
+  detect_tools files = TOk m ->
+  NoDup (map fst m) /\
+  forall t f, In (t, f) m <-> exists runs, In (f, Some runs) files /\ exists run, In run runs /\ detect t run = DYes.
+Proof. apply detect_tools_ord_exact. intros [|]; cbn; auto. Qed.
+
+(** witnesses for the non-vacuity example: one file with a Semgrep and a CodeQL run, one with a foreign run *)
+Definition w_trun (name : str) : json := JObj [(s_tool, JObj [(s_driver, JObj [(s_name, JStr name)])])].
+Definition w_tfiles : list (N * option (list json)) :=
+  [(0%N, Some [w_trun [83;110;121;107]%N; w_trun [115;101;109;103;114;101;112]%N]);
+   (1%N, Some [w_trun s_CodeQL])].
